@@ -34,8 +34,10 @@ class UserFunction:
     def __init__(self, fun, defaults={}, args={}):
         if isinstance(fun, (UserFunction, DomainUserFunction)):
             self.fun = fun.fun
-            self.defaults = fun.defaults
-            self.args = fun.args
+            # copy the containers, so that changing the defaults of this wrapper
+            # does not change the wrapper it was created from
+            self.defaults = copy.copy(fun.defaults)
+            self.args = copy.copy(fun.args)
         else:
             self._transform_to_user_function(fun, defaults, args)
 
@@ -48,6 +50,9 @@ class UserFunction:
 
     def _set_input_args_for_function(self):
         f_args = inspect.getfullargspec(self.fun).args
+        if inspect.ismethod(self.fun):
+            # the instance is already bound and is not passed in when calling
+            f_args = f_args[1:]
 
         # we check that the function defines all needed parameters
         if (
